@@ -15,6 +15,7 @@ import numpy
 
 from mpv import arr, models, syntax
 
+ANCHORS = ['mpilot/program.py:Program.to_string', 'mpilot/program.py:Program.from_source', 'mpilot/parser/parser.py:Lexer.t_STRING', 'mpilot/parser/parser.py:Lexer.t_FLOAT']   # repository functions the workload must enter (reported as anchors_reached / anchors_missed)
 LEVEL = "exploration"
 RULE = ("programs of 1-6 Echo commands (string, number, boolean, path, data type, lists of numbers/strings/booleans, nested lists, "
         "result, list and nested list of results, tuple, metadata) with hostile string contents (quotes, backslashes, delimiters, '#', "
